@@ -34,6 +34,7 @@ var (
 	flagJSON     = flag.Bool("json", false, "with -dump: print obligations as JSON lines")
 	flagMutants  = flag.String("mutants", "", "with -selftest: only mutants whose id contains this")
 	flagJobs     = flag.Int("j", 6, "parallel mutant analyses")
+	flagConfig   = flag.String("config", "", "with -dump: build configuration name (e.g. windows/amd64)")
 )
 
 func main() {
@@ -104,7 +105,13 @@ func runRules(c *Ctx, rs []*Rule) (all []*Ob, perRule map[string]int) {
 }
 
 func runDump() int {
-	c := loadCtx(*flagRepo, defaultConfig)
+	cfg := defaultConfig
+	for _, tc := range thoroughConfigs {
+		if tc.Name == *flagConfig {
+			cfg = tc
+		}
+	}
+	c := loadCtx(*flagRepo, cfg)
 	c.UseCHA = *flagCHA
 	all, per := runRules(c, selectedRules())
 	nv := 0
